@@ -17,6 +17,7 @@ package binary
 //gvc:  requires nonneg: n >= 0
 //gvc:  requires wnn: w != nil
 //gvc:  loop 1 unroll 10
+//gvc:  ensures trace: err == nil ==> w.#fedn == old(w.#fedn) + 1 && spec_ofs_value(w.#fedarr[old(w.#fedn)], w.#fedoff[old(w.#fedn)], w.#fedlen[old(w.#fedn)]) == n
 //gvc:  ensures length: 1 <= len(now(buf)) && len(now(buf)) <= 10
 //gvc:  ensures value: spec_ofs_value(arr(now(buf)), off(now(buf)), len(now(buf))) == n
 //gvc:  ensures last: now(buf)[len(now(buf)) - 1] & 0x80 == 0
